@@ -49,7 +49,7 @@ func c04(r *hx.Run) {
 	fx.Quiet()
 	client, v := stdClient()
 	delta := v.P.MaxOperationTimeDelta
-	r.Rule = "(i) every history of <=3 operations after the create (chain-building alphabet, coordinates 2.0,2.1,3.0) that the reference (and, checked, the real processor) resolves as deactivated is extended by every 1 (all pool operations incl. forged and creates) and every 2 (legitimate alphabet; thorough: all) later-anchored operations: result must stay deactivated, empty, without commitments and otherwise unchanged; (ii) for each such state a real DocumentHandler with its default decorator must refuse every non-create request and leave queue and unpublished store untouched; (iii) for every history with a recover, removing every subset of updates anchored at or before the last applied recover must not change the result. Non-trivial: distinct (base state, extension) pairs whose extension parses."
+	r.Rule = "(i) every history of <=3 operations after the create (chain-building alphabet, coordinates 2.0,2.1,3.0) that the reference (and, checked, the real processor) resolves as deactivated is extended by every 1 (all pool operations incl. forged and creates; anchored later, or unpublished with a later / earlier time stamp) and every 2 (legitimate alphabet; thorough: all) later-anchored operations: result must stay deactivated, empty, without commitments and otherwise unchanged; (ii) for each such state a real DocumentHandler with its default decorator must refuse every non-create request and leave queue and unpublished store untouched; (iii) for every history with a recover, removing every subset of updates anchored at or before the last applied recover must not change the result. Non-trivial: distinct (base state, extension) pairs whose extension parses."
 	pool := fx.NewPool(fx.Ed25519, fx.SHA256, "ok")
 	all := opIDs(pool, func(*fx.PoolOp) bool { return true })
 	legit := opIDs(pool, isLegit)
@@ -161,6 +161,10 @@ func c04(r *hx.Run) {
 				try([]fx.Placed{{Op: pool.Get(id), Time: c.T, Num: c.N, Published: true}})
 			}
 			try([]fx.Placed{{Op: pool.Get(id), Time: 9, Num: 0, Published: false}})
+			// an unpublished operation stamped before the anchored ones (a stale local copy, or a request submitted long before
+			// the competing operation was anchored): anchored operations take precedence whatever its time stamp says
+			try([]fx.Placed{{Op: pool.Get(id), Time: 1, Num: 0, Published: false}})
+			try([]fx.Placed{{Op: pool.Get(id), Time: 2, Num: 0, Published: false}})
 		}
 		for _, a := range pairAlpha {
 			if r.Tier == "quick" && si%6 != 0 {
@@ -267,5 +271,5 @@ func c04(r *hx.Run) {
 			}
 		}
 	})
-	r.Assumptions = append(r.Assumptions, "extensions are anchored after every operation of the base history (same time as the last base operation with a higher number, or later times) or are unpublished; they come first in the store's return order", "in quick, pairs of extensions run on every 6th and the document handler part on every 4th deactivated base state (all of them in thorough)")
+	r.Assumptions = append(r.Assumptions, "extensions are anchored after every operation of the base history (same time as the last base operation with a higher number, or later times) or are unpublished (stamped later or earlier than the anchored operations); they come first in the store's return order", "in quick, pairs of extensions run on every 6th and the document handler part on every 4th deactivated base state (all of them in thorough)")
 }
